@@ -226,7 +226,12 @@ def r5(ctx):
         lab = f"at5.{mod}.{cls}"
         hdr = f.params[2]
         loops = [x for x in ast.walk(f.node) if isinstance(x, ast.For)]
-        lp = next((x for x in loops if isinstance(x.iter, ast.Call) and dotted(x.iter.func) == "range" and len(x.iter.args) == 1 and norm_text(x.iter.args[0]) == f"{hdr}.repeat_count"), None)
+
+        def it_text(x, f=f):
+            n_ = f.node_of(x)
+            return norm_text(f.expand(x.iter, n_)) if n_ is not None else norm_text(x.iter)
+
+        lp = next((x for x in loops if it_text(x) == f"range({hdr}.repeat_count)"), None)
         if lp is None:
             ctx.violation(R, f"{lab}:loop", m, f.node, f"one record per announced repeat: for _ in range({hdr}.repeat_count)", "no such loop")
             continue
@@ -239,7 +244,9 @@ def r5(ctx):
         ivar = lp.target.id if isinstance(lp.target, ast.Name) else None
         if adv:
             lo = adv[0].value.slice.lower
-            a_ok = lo is not None and norm_text(lo) == f"{hdr}.repeat_length" and adv[0].value.slice.upper is None
+            an = f.node_of(adv[0])
+            lo_txt = norm_text(f.expand(lo, an, keep={buf})) if lo is not None and an is not None else (norm_text(lo) if lo is not None else "")
+            a_ok = lo is not None and lo_txt == f"{hdr}.repeat_length" and adv[0].value.slice.upper is None
             # reads in the loop must address the current head of the buffer (no index-based offset)
             offs = [x for x in unp if (len(x.args) > 1 or any(k.arg == "offset" for k in x.keywords)) and isinstance(x.func, ast.Attribute) and x.func.attr == "unpack_from"]
             last = lp.body[-1] is adv[0] or all(not any(isinstance(y, ast.Name) and y.id == buf for y in ast.walk(s)) for s in lp.body[lp.body.index(adv[0]) + 1:])
@@ -275,9 +282,17 @@ def r5(ctx):
         ctx.fn(m, f"{cls}.decode")
         hdr = f.params[2]
         lp = next((x for x in ast.walk(f.node) if isinstance(x, ast.For)), None)
-        ok = lp is not None and norm_text(lp.iter) == f"range({hdr}.message_length // _STRUCT.size)"
-        adv = [s for s in (lp.body if lp else []) if isinstance(s, ast.Assign) and norm_text(s) == f"{f.params[1]} = {f.params[1]}[_STRUCT.size:]"]
-        ctx.check(ok and len(adv) == 1, R, f"at4.{mod}.{cls}:records", m, f.node, "message_length // record size records, advancing by the record size", norm_text(lp.iter) if lp else "no loop")
+        ln = f.node_of(lp) if lp is not None else None
+        it_txt = norm_text(f.expand(lp.iter, ln)) if ln is not None else (norm_text(lp.iter) if lp else "no loop")
+        ok = lp is not None and it_txt == f"range({hdr}.message_length // _STRUCT.size)"
+        buf = f.params[1]
+        adv = []
+        for s_ in (lp.body if lp else []):
+            if isinstance(s_, ast.Assign) and dotted(s_.targets[0]) == buf:
+                sn = f.node_of(s_)
+                if sn is not None and norm_text(f.expand(s_.value, sn, keep={buf})) == f"{buf}[_STRUCT.size:]":
+                    adv.append(s_)
+        ctx.check(ok and len(adv) == 1, R, f"at4.{mod}.{cls}:records", m, f.node, "message_length // record size records, advancing by the record size", it_txt)
 
 
 # ------------------------------------------------------------------------------------------ R6 strings
